@@ -232,7 +232,7 @@ theorem setLimit_ok {l : Local} {next n : Nat} {l' : Local} {fs : List NewCid}
     l'.largest = l.largest + fs.length ∧ l'.off = l.off ∧
     fs.map (·.seq) = List.range' l.largest fs.length ∧
     fs.map (·.cid) = (List.range' next fs.length).map Cid.gen ∧
-    fs.length = n - l.largest := by
+    fs.length = min n maxIssuedActiveCids - l.largest := by
   unfold setLimit at h
   split at h; · cases h
   rename_i hlim
